@@ -536,9 +536,10 @@ func (pr *ProtoArray) inSubtree(anchorIndex NodeIndex, lookupIndex NodeIndex) (u
 	if err != nil {
 		return true, false
 	}
-	if anchorNode.Ref.Slot >= lookupNode.Ref.Slot {
+	if anchorNode.Ref.Slot > lookupNode.Ref.Slot {
 		// anchor is later on the same chain than the looked up node.
 		// So anchor may be in subtree of the looked up node, but not vice versa.
+		// (At the same slot the looked up node may be the block on top of an empty-slot anchor.)
 		return false, false
 	}
 	if anchorIndex >= lookupIndex {
